@@ -267,8 +267,15 @@ func c19mPrepareIDFile(c *c19mCell, rng *kit.RNG) error {
 // c19mLife runs one server lifetime for a cell: start, become leader, a short
 // needle-carrying activity, stop.  It returns a reason when the lifetime is
 // not usable as an observation.
+// c19AfterNew: *Config -> func() run between New(cfg) and Start() (an embedding
+// program that adjusts its configuration after constructing the server).
+var c19AfterNew sync.Map
+
 func c19mLife(c *c19mCell, cfg *Config, waitReport func()) string {
 	srv := New(cfg)
+	if f, ok := c19AfterNew.LoadAndDelete(cfg); ok {
+		f.(func())()
+	}
 	if err := srv.Start(); err != nil {
 		return fmt.Sprintf("server did not start: %v", err)
 	}
